@@ -59,27 +59,28 @@ pub proof fn lemma_otx_wf<B: RequestBound + ?Sized>(ot: Seq<InterferingTask<B>>)
     lemma_to_ots_wf(otx_of(ot));
 }
 
-pub open spec fn rta_is_e<F: Fn(Offset) -> SearchResult>(f: &F, g: spec_fn(int) -> Option<int>, max: int) -> bool {
-    forall |a: Offset, r: SearchResult| a.v() < max && #[trigger] f.ensures((a,), r) ==> res_view(r) == g(a.v())
+/// the observation of the step streams covers every offset the search can reach (and the eager reading of the shift does not overflow)
+pub open spec fn pre_steps_ot<B: RequestSteps + ?Sized>(ot: &InterferingTask<B>, dl: int, max: int, n: int) -> bool {
+    ot.rbf.rsteps_ok(n) && ot.rbf.rsteps_hz(n) >= max + dl && ot.rbf.rsteps_hz(n) + ot.deadline.v() <= u64::MAX
 }
-/// R10 (ASSUMED): the lazily merged EDF search space (see edf_fully_preemptive.rs)
-#[verifier::external_body]
-pub fn vf_tail_edf<A: ArrivalBound + ?Sized, B: RequestBound + ?Sized, F: Fn(Offset) -> SearchResult>(tua: &TaskUnderAnalysis<A>, other_tasks: &[InterferingTask<B>], max_offset: Offset, rta: F) -> (res: SearchResult)
-    requires forall |a: Offset| a.v() < max_offset.v() && in_space(tuaf(tua), tua.deadline.v(), to_ots(otx_of(other_tasks@)), a.v()) ==> #[trigger] rta.requires((a,))
-    ensures forall |g: spec_fn(int) -> Option<int>| #[trigger] rta_is_e(&rta, g, max_offset.v()) ==> res_view(res) == fold_space(tuaf(tua), tua.deadline.v(), to_ots(otx_of(other_tasks@)), g, max_offset.v())
-{ unimplemented!() }
+pub open spec fn pre_steps<A: ArrivalSteps + ?Sized, B: RequestSteps + ?Sized>(tua: &TaskUnderAnalysis<A>, ot: Seq<InterferingTask<B>>, limit: int, n: int) -> bool {
+    &&& tua.arrivals.steps_ok(n) && tua.arrivals.steps_hz(n) >= limit
+    &&& forall |i: int| 0 <= i < ot.len() ==> pre_steps_ot(&#[trigger] ot[i], tua.deadline.v(), limit, n)
+}
+
 
 //@item src/edf/limited_preemptive.rs :: fn dedicated_uniproc_rta
 pub fn dedicated_uniproc_rta<RBF, AB>(
     tua: &TaskUnderAnalysis<AB>,
     other_tasks: &[InterferingTask<RBF>],
     limit: Duration,
+/*+*/vf_n: usize,/*-*/
 ) -> /*+*/(res: /*-*/fixed_point::SearchResult/*+*/)/*-*/
 where
-    RBF: RequestBound + ?Sized,
-    AB: ArrivalBound + ?Sized,
+    RBF: /*@R22: RequestBound @*/RequestSteps/*@.*/ + ?Sized,
+    AB: /*@R22: ArrivalBound @*/ArrivalSteps/*@.*/ + ?Sized,
 //@+
-    requires pre(tua, other_tasks@, limit.v())
+    requires pre(tua, other_tasks@, limit.v()), pre_steps(tua, other_tasks@, limit.v(), vf_n as int)
     ensures res_view(res) == spec_result(tua, other_tasks@, limit.v())
 //@-
 {
@@ -236,30 +237,82 @@ where
     // necessarily yields delta=1, which results in A=0 being
     // included in the search space.
     let max_offset = Offset::from_time_zero(L);
-    /*@R10: let search_space_tua = demand::step_offsets(&tua_rbf).take_while(|A| *A < max_offset);
-    let search_space = other_tasks
+//@+
+    let ghost mx = max_offset.v();
+    let ghost hz = tua.arrivals.steps_hz(vf_n as int);
+    let ghost ots = to_ots(otx);
+    proof { assert(L.v() <= limit.v()); lemma_scalar_strict(tua_rbf.wcet); }
+//@-
+    let search_space_tua = demand::step_offsets(&tua_rbf/*+*/, vf_n/*-*/).take_while(|A/*+*/: &Offset/*-*/| /*+*/-> (r: bool) ensures r == (A.v() < max_offset.v()) { /*@probe*/ /*-*/*A < max_offset/*+*/ }, Ghost(|A: Offset| A.v() < max_offset.v())/*-*/);
+//@+
+    let ghost ss_tua = search_space_tua.0@;
+    // the stream that take_while consumed (an unnamed temporary of the expression above)
+    let ghost offs_tua: Seq<Offset> = choose |o: Seq<Offset>| #[trigger] offsets_exact(o, tf, hz) && tw_of(ss_tua, o, mx);
+    proof {
+        assert(exists |o: Seq<Offset>| #[trigger] offsets_exact(o, tf, hz) && tw_of(ss_tua, o, mx));
+        lemma_tw_set(offs_tua, tf, hz, mx, ss_tua);
+    }
+//@-
+//@+
+    let ghost gs = |i: int, a: int| shifted_in(ots[i].f, ots[i].dl, dl, mx, a);
+//@-
+    let search_space = /*@R21: other_tasks
         .iter()
-        .map(|ot| {
-            demand::step_offsets(ot.rbf)
-                .map(move |delta| {
+        .map( @*/VfStream::kmerge_map(other_tasks, /*@.*/|ot/*+*/: &InterferingTask<RBF>/*-*/| /*+*/-> (r: VfStream<Offset>)
+            requires ot.rbf.wf(), pre_steps_ot(ot, tua.deadline.v(), max_offset.v(), vf_n as int)
+            ensures forall |a: int| #[trigger] off_has(r.0@, a) <==> shifted_in(rbf_fn(ot.rbf), ot.deadline.v(), tua.deadline.v(), max_offset.v(), a)
+        /*-*/{ /*@probe*/
+            /*+*/let vf_r = /*-*/demand::step_offsets(ot.rbf/*+*/, vf_n/*-*/)
+                .map(move |delta/*+*/: Offset/*-*/| /*+*/-> (r: Offset)
+                    requires delta.v() + ot.deadline.v() <= u64::MAX
+                    ensures r == sh(ot.deadline.v(), tua.deadline.v())(delta)
+                /*-*/{ /*@probe*/
                     Offset::from_time_zero(
                         (delta + ot.deadline)
                             .since_time_zero()
                             .saturating_sub(tua.deadline),
                     )
-                })
-                .take_while(|A| *A < max_offset)
-        })
-        .kmerge()
+                }/*+*/, Ghost(sh(ot.deadline.v(), tua.deadline.v()))/*-*/)
+                .take_while(|A/*+*/: &Offset/*-*/| /*+*/-> (r: bool) ensures r == (A.v() < max_offset.v()) { /*@probe*/ /*-*/*A < max_offset/*+*/ }, Ghost(|A: Offset| A.v() < max_offset.v())/*-*/)/*+*/;
+            proof {
+                let fo = rbf_fn(ot.rbf); let hzo = ot.rbf.rsteps_hz(vf_n as int);
+                let (dlo, dl, mxo) = (ot.deadline.v(), tua.deadline.v(), max_offset.v());
+                assert(exists |o: Seq<Offset>| #[trigger] offsets_exact(o, fo, hzo) && tw_of(vf_r.0@, o.map_values(sh(dlo, dl)), mxo));
+                let o = choose |o: Seq<Offset>| #[trigger] offsets_exact(o, fo, hzo) && tw_of(vf_r.0@, o.map_values(sh(dlo, dl)), mxo);
+                lemma_shifted_tw_set(o, fo, hzo, dlo, dl, mxo, vf_r.0@);
+            }
+            vf_r/*-*/
+        }/*@R21: )
+        .kmerge() @*/, Ghost(gs))/*@.*/
         .merge(search_space_tua)
         .dedup();
+//@+
+    let ghost ss = search_space.0@;
+    proof {
+        assert(ots.len() == other_tasks@.len());
+        assert forall |a: int| #[trigger] off_has(ss, a) <==> ((0 <= a < mx && is_step_at(tf, a + 1)) || exists |i: int| 0 <= i < ots.len() && #[trigger] shifted_in(ots[i].f, ots[i].dl, dl, mx, a)) by {
+            if exists |i: int| 0 <= i < ots.len() && #[trigger] shifted_in(ots[i].f, ots[i].dl, dl, mx, a) {
+                let i = choose |i: int| 0 <= i < ots.len() && #[trigger] shifted_in(ots[i].f, ots[i].dl, dl, mx, a);
+                assert(gs(i, a));
+            }
+            if off_has(ss, a) && !(0 <= a < mx && is_step_at(tf, a + 1)) {
+                let i = choose |i: int| 0 <= i < other_tasks@.len() && #[trigger] gs(i, a);
+                assert(shifted_in(ots[i].f, ots[i].dl, dl, mx, a));
+            }
+        }
+        lemma_edf_space(ss, tf, dl, ots, mx);
+        assert forall |i: int| 0 <= i < ss.len() implies #[trigger] rta.requires((ss[i],)) by { assert(off_has(ss, ss[i].v())); }
+    }
+//@-
 
     // Finally, apply the offset-specific RTA to each offset in the
     // search space and return the maximum response-time bound.
-    fixed_point::max_response_time(search_space.map(rta)) @*/let vf_res = vf_tail_edf(tua, other_tasks, max_offset, rta);
+    /*@R21: fixed_point::max_response_time(search_space.map(rta)) @*/let vf_rs = search_space.map_rel(rta);
+    let vf_res = fixed_point::max_response_time(vf_rs.as_slice());
     proof {
         let g = |x: int| edfx_f(tf, dl, otx, rem, limit.v(), x);
-        assert(rta_is_e(&rta, g, max_offset.v()));
+        lemma_set_fold(ss, |x: int| in_space(tf, dl, ots, x), mx, vf_rs.0@, g, vf_res);
+        lemma_fold_space_is_fold_p(tf, dl, ots, g, mx);
         lemma_edfx_prune(tf, dl, otx, rem, limit.v(), L.v());
     }
     vf_res/*@.*/
